@@ -11,6 +11,7 @@ mod inbound;
 mod alias;
 mod wire;
 mod limits;
+mod grammar;
 mod driver_tokio;
 mod driver_threaded;
 mod refdec;
